@@ -1,11 +1,13 @@
-import QuantemModel.Lemmas.Registration
+import QuantemModel.Lemmas.RegistrationSpectral
 /-!
 C13 — image registration (Model/Registration.lean, read at the carrier ℝ).
 Only property theorems and non-vacuity examples live here.
 
 Not proved (measured by the correspondence run only): the "within 1/upsample_factor" accuracy
-for band-limited sub-pixel shifts, and the correlation theorem that identifies the spatial
-correlation `cc` of the model with `real(ifft2(fft2(ref)·conj(fft2(im))))` of the code.
+for band-limited sub-pixel shifts.  The correlation theorem that identifies the spatial
+correlation `cc` with `real(ifft2(fft2(ref)·conj(fft2(im))))` of the code is proved
+(`correlation_theorem`, from the shared spectral core), so the `_fft` theorems below are about
+the table the code really computes.
 -/
 namespace QuantemModel.Props.C13
 open QuantemModel QuantemModel.Registration Finset
@@ -225,6 +227,52 @@ theorem identical_zero_upsampled_torch {M N : ℕ} (hM : 0 < M) (hN : 0 < N) (x 
     unfold sideTorch gShift du; omega
   simp only [patchRefine, hcond, and_self, if_true]
   rw [hsym1, hsym2, parabolic_symm, parabolic_symm, hfin, centre_zero hM, centre_zero hN]
+
+/-! ### the FFT formula the code evaluates -/
+
+/-- **Correlation theorem.**  For every shape and every pair of real images, the table
+`real(ifft2(fft2(ref) * conj(fft2(im))))` (defining DFT sums, as the code evaluates it) *is* the
+spatial circular cross-correlation table all coarse-stage theorems are about. -/
+theorem correlation_theorem {M N : ℕ} (hM : 0 < M) (hN : 0 < N) (ref im : ℕ → ℕ → ℝ) :
+    ccRealFFT M N ref im = corrTable M N ref im := by
+  funext s t
+  exact Registration.correlation_theorem hM hN ref im s t
+
+/-- integer-shift exactness of the NumPy estimator, stated on the FFT table -/
+theorem integer_shift_np_fft {M N : ℕ} (hM : 0 < M) (hN : 0 < N) (x : ℕ → ℕ → ℝ)
+    (hx : UniquePeak M N x) (a b : ℤ) :
+    let c := ccRealFFT M N x (rollImg M N x a b)
+    IsCentredRep M (-a) (shiftNp1 M N c c).1 ∧ IsCentredRep N (-b) (shiftNp1 M N c c).2 := by
+  rw [correlation_theorem hM hN]
+  exact integer_shift_np hM hN x hx a b
+
+/-- integer-shift exactness of the torch estimator, stated on the FFT table -/
+theorem integer_shift_torch_fft {M N : ℕ} (hM : 0 < M) (hN : 0 < N) (x : ℕ → ℕ → ℝ)
+    (hx : UniquePeak M N x) (a b : ℤ) :
+    let c := ccRealFFT M N x (rollImg M N x a b)
+    IsCentredRep M (-a) (shiftTorch2 M N c).1 ∧ IsCentredRep N (-b) (shiftTorch2 M N c).2 := by
+  rw [correlation_theorem hM hN]
+  exact integer_shift_torch hM hN x hx a b
+
+/-- swap negation, stated on the FFT tables of `(x, y)` and `(y, x)` -/
+theorem swap_negates_np_fft {M N : ℕ} (hM : 0 < M) (hN : 0 < N) (x y : ℕ → ℕ → ℝ) (p q : ℕ)
+    (hmax : UniqueMaxAt M N (ccRealFFT M N x y) p q) :
+    let s := shiftNp1 M N (ccRealFFT M N x y) (ccRealFFT M N x y)
+    let s' := shiftNp1 M N (ccRealFFT M N y x) (ccRealFFT M N y x)
+    (s.1 ≠ -((M : ℝ) / 2) → s'.1 = -s.1) ∧ (s.2 ≠ -((N : ℝ) / 2) → s'.2 = -s.2) := by
+  rw [correlation_theorem hM hN] at hmax ⊢
+  rw [correlation_theorem hM hN y x]
+  exact swap_negates_np hM hN x y p q hmax
+
+/-- identical images, every upsampling factor, on the tables the code computes: `cc_real` from the
+FFT formula and the Fourier product `fft2(x)·conj(fft2(x))` handed to `dft_upsample` -/
+theorem identical_zero_upsampled_np_fft {M N : ℕ} (hM : 0 < M) (hN : 0 < N) (x : ℕ → ℕ → ℝ)
+    (hx : UniquePeak M N x) (up : ℕ) (hup : 1 ≤ up)
+    (hstrict : UniqueMaxAt (sideNp up) (sideNp up)
+      (patchNp M N up (ccF (dft2At M N x) (dft2At M N x)) 0 0) (du up) (du up)) :
+    shiftNpUp M N up (ccRealFFT M N x x) (ccRealFFT M N x x) (ccF (dft2At M N x) (dft2At M N x)) = (0, 0) := by
+  rw [correlation_theorem hM hN]
+  exact identical_zero_upsampled_np hM hN x hx up hup _ hstrict
 
 /-! ### non-vacuity -/
 
